@@ -514,23 +514,40 @@ func newKey(r *hx.Rng, t *tinkpb.KeyTemplate, p key.Parameters, id uint32) (key.
 	var err error
 	withDet(r.U64(), func() { k, err = keygenregistry.CreateKey(p, id) })
 	if err != nil {
+		// (key creation legitimately refuses many parameters their parser accepts - AES-192, AES-SIV with 32-byte
+		// keys, HKDF with SHA-1, derivers over non-PRF keys ...: a refusal cannot be told from a defect here; what
+		// protects against a whole family vanishing is the class-group coverage obligation of the check, to which
+		// the key-size class of every K line belongs - fifth audit C-3)
 		return nil, false
 	}
 	return k, true
 }
 
-// saneRSATemplate: no PSS salt, or one of 1..64 bytes.
+// saneRSATemplate: no PSS salt, or a salt length every key of the template can sign with:
+// 1 <= salt <= emLen - hLen - 2 with emLen = ceil((modulus bits - 1) / 8) (RFC 8017 9.1.1; the key constructor
+// test-signs).  Salt length 0 is accepted by the parameters parser and refused by the key parser by design.
 func saneRSATemplate(t *tinkpb.KeyTemplate) bool {
 	m := formatTypeOfURL(t.TypeUrl).New()
 	if proto.Unmarshal(t.Value, m.Interface()) != nil {
 		return false
 	}
-	if pm, fd := fieldByPath(m, "params.salt_length"); pm != nil {
-		sl := pm.Get(fd).Int()
-		return sl >= 1 && sl <= 64
+	pm, fd := fieldByPath(m, "params.salt_length")
+	if pm == nil {
+		return true
 	}
-	return true
+	sl := pm.Get(fd).Int()
+	hm, hf := fieldByPath(m, "params.sig_hash")
+	bm, bf := fieldByPath(m, "modulus_size_in_bits")
+	if hm == nil || bm == nil {
+		return false
+	}
+	hlen := map[protoreflect.EnumNumber]int64{1: 20, 2: 48, 3: 32, 4: 64, 5: 28}[hm.Get(hf).Enum()]
+	emLen := (int64(bm.Get(bf).Uint()) - 1 + 7) / 8
+	return hlen > 0 && sl >= 1 && sl <= emLen-hlen-2
 }
+
+// createRefused: GENFAIL lines for parameters CreateKey refused (see newKey); drained like poolUnparsed.
+var createRefused []string
 
 // poolUnparsed: K lines of pool-built RSA keys the implementation's parser refused (see newKey);
 // drained into the case list by the generator.
@@ -1114,6 +1131,8 @@ func gen(r *hx.Rng, n int, tier string) []string {
 	}
 	// keys the implementation's parser refused although they are valid (at most a handful; they replace the
 	// last lines so that the case count stays n)
+	poolUnparsed = append(poolUnparsed, createRefused...)
+	createRefused = nil
 	if len(poolUnparsed) > 0 {
 		k := len(poolUnparsed)
 		if k > 20 {
